@@ -13,7 +13,7 @@ RULE = ('Hypothesis draws one of the 2x2 client/server pairs (threaded Client or
         'clock), the client transport '
         'list ([polling], [websocket], default = polling then upgrade), heartbeat settings (plain interval or (interval, grace)), handlers that may take virtual time on either side, handler '
         'dispatch mode and a conversation: bursts of 1..40 sends in either direction with text / '
-        'JSON / binary payloads, sends from inside the client connect handler (queued across the '
+        'JSON / binary payloads, message handlers on either or both sides that answer each message with a send() of their own, sends from inside the client connect handler (queued across the '
         'upgrade), idle periods of up to 50 (quick) / 300 (thorough) heartbeat cycles, with or '
         'without settling between steps, and a disconnect by either side at the end. Oracle: each '
         "side's message log equals the other side's send log (exactly once, in order, equal "
@@ -79,7 +79,10 @@ def case_st(draw):
                                     'server': {'disconnect': 0.25, 'message': 2.0 ** -9}}]))
     # ping_interval given as (interval, grace): the client is told interval + grace
     grace = draw(st.sampled_from([None, None, None, 0.5, 'T+1']))
-    return {'impl': impl, 'server': server, 'transports': transports, 'I': I, 'T': T,
+    # request / response conversations: a message handler that answers every message it gets with
+    # a send() of its own before returning (replies themselves are not answered)
+    echo = draw(st.sampled_from([None, None, None, 'server', 'client', 'both']))
+    return {'impl': impl, 'server': server, 'transports': transports, 'I': I, 'T': T, 'echo': echo,
             'async_handlers': draw(st.booleans()), 'steps': steps, 'end': end,
             'send_in_connect': pre, 'server_greets': greets, 'delays': delays, 'grace': grace}
 
@@ -116,19 +119,61 @@ def check_case(case, ctx=None, idle_scale=1.0):
     if case.get('delays'):
         h.handler_delay = dict(case['delays']['client'])
         h.world.app_log.delay = dict(case['delays']['server'])
+    echo = case.get('echo')
+    nrep = [0]
+    if echo:
+        # with handlers that send, the order of the send() calls is only known when they are
+        # made: record it there (both sides), instead of when the harness issues them
+        import asyncio
+        for obj, log in ((h.world.server, ssent), (h.client, csent)):
+            orig = obj.send
+            if asyncio.iscoroutinefunction(orig):
+                def mk(orig=orig, log=log):
+                    async def send(*a, **k):
+                        log.append(a[-1])
+                        return await orig(*a, **k)
+                    return send
+            else:
+                def mk(orig=orig, log=log):
+                    def send(*a, **k):
+                        log.append(a[-1])
+                        return orig(*a, **k)
+                    return send
+            obj.send = mk()
+        del ssent[:]        # (the greetings are recorded when the connect handler sends them)
+
+    def is_reply(d):
+        return isinstance(d, str) and d[:1] in 'SC' and d.endswith('~reply')
+    if echo in ('server', 'both'):
+        from vk.aworld import HandlerCall
+
+        def react(ev, sid_, data):
+            if ev != 'message' or is_reply(data):
+                return []
+            nrep[0] += 1
+            m = tagged('s', 5000 + nrep[0], 'reply')
+            return [('send', m, HandlerCall('send', (sid_, m), h.clock.now))]
+        h.world.app_log.react = react
     try:
         pre = case.get('send_in_connect', 0)
-        if pre:
-            premsgs = [tagged('c', 1000 + i, 'pre') for i in range(pre)]
-
+        premsgs = [tagged('c', 1000 + i, 'pre') for i in range(pre)]
+        if pre or echo in ('client', 'both'):
             def on_event(ev, arg):
                 if ev == 'connect':
                     for m in premsgs:
-                        csent.append(m)
+                        if not echo:
+                            csent.append(m)
                         if client_kind == 'thread':
                             h.client.send(m)
                         else:
                             h.loop.create_task(h.client.send(m))
+                if ev == 'message' and echo in ('client', 'both') and not is_reply(arg):
+                    nrep[0] += 1
+                    m = tagged('c', 7000 + nrep[0], 'reply')
+                    if client_kind == 'thread':
+                        h.client.send(m)
+                    else:
+                        return h.client.send(m)         # awaited by the handler itself
                 return None
             h.log.on_event = on_event
         c = h.client_call('connect', 'http://localhost:5000', transports=case['transports'])
@@ -145,14 +190,16 @@ def check_case(case, ctx=None, idle_scale=1.0):
             if stp['do'] == 'csend':
                 for m in stp['msgs']:
                     d = rm.untag(m)
-                    csent.append(d)
+                    if not echo:
+                        csent.append(d)
                     h.client_call('send', d)
                 if stp['settle']:
                     h.settle()
             elif stp['do'] == 'ssend':
                 for m in stp['msgs']:
                     d = rm.untag(m)
-                    ssent.append(d)
+                    if not echo:
+                        ssent.append(d)
                     h.world.call('send', sid, d)
                 if stp['settle']:
                     h.settle()
@@ -198,6 +245,8 @@ def check_case(case, ctx=None, idle_scale=1.0):
                 cls.append('send-in-connect-handler')
             if case.get('delays'):
                 cls.append('handlers-taking-time')
+            if echo:
+                cls.append('message-handler-replies-' + echo)
             if case.get('grace') is not None:
                 cls.append('interval-with-grace-%s' % case['grace'])
             ctx.case(rep, nt, cls)
